@@ -5,6 +5,7 @@ package c01
 import (
 	"fmt"
 	"sort"
+	"strings"
 	"testing"
 
 	"github.com/wmnsk/go-pfcp/message"
@@ -30,6 +31,9 @@ func TestMain(m *testing.M) {
 type Case struct {
 	Ops    []stack.Op    `json:"ops"`
 	Faults []stack.Fault `json:"faults"`
+	// FQDN: node 0 names itself by the host name "localhost" (a Node ID may be an FQDN) and lives at 127.0.0.1, where the
+	// UPF's own requests to it then go.  That address is one per machine: when another process holds it the case is skipped.
+	FQDN bool `json:"fqdn,omitempty"`
 }
 
 // ---------------------------------------------------------------- generator
@@ -210,9 +214,20 @@ type result struct {
 func run(c Case) (res result) {
 	d := stack.NewModelDriver()
 	d.SetFaults(c.Faults)
-	st, err := stack.New(stack.Opts{Driver: d})
+	opts := stack.Opts{Driver: d}
+	if c.FQDN {
+		opts.NodeIDs, opts.NodeAddrs = map[int]string{0: "localhost"}, map[int]string{0: "127.0.0.1"}
+	}
+	st, err := stack.New(opts)
 	if err != nil {
+		if c.FQDN && strings.Contains(err.Error(), "address already in use") {
+			vcore.E.Class("fqdn_case_skipped:127.0.0.1:8805_is_held_by_another_process")
+			return res
+		}
 		panic(fmt.Sprintf("infrastructure: %v", err))
+	}
+	if c.FQDN {
+		vcore.E.Class("node_named_by_a_host_name")
 	}
 	defer func() {
 		if cerr := st.Close(); cerr != nil && res.v == nil {
